@@ -32,4 +32,14 @@ def check(case):
 
 
 def corpus(seed, n):
-    return procs.corpus(seed, min(n, 16))
+    """replay corpus (all kinds) when asked for many cases; as a bounded stand-in (n small): the fast ideal models over
+    (number_of_steps, step length) grids, where float rounding of a computed time grid would show"""
+    import random
+    rng = random.Random(seed)
+    grid = [(3, 0.1), (6, 0.1), (7, 0.3), (10, 0.1), (5, 1.0), (50, 0.2), (9, 0.7), (12, 0.05), (3, 1e-3), (11, 0.9)]
+    out = []
+    for i, (N, dt) in enumerate(grid):
+        f = procs.FUNCS[i % 2]
+        out.append(dict(func=f, N=N, dt=dt, mode=['vacuum', 'temperature', 'pressure'][i % 3], comp_type=['weight', 'molar'][i % 2], A=0.01, m0=5.0, program=(i % 4 == 1 and 'non_isothermal' in f)))
+    if n > len(out): out += procs.corpus(seed, min(n - len(out), 16))
+    return out[:max(n, 4)]
